@@ -15,11 +15,14 @@ CONFIGS = {
         dict(Mode='"blank"', Wraps='{"none", "set", "alias"}', AVals="{0, 1}", SVals='{"unset", "p", "empty"}', MaxOps=3),
         dict(Mode='"blank"', Wraps=ALL_WRAPS, AVals="{0, 1, 2}", SVals='{"unset", "empty", "p", "pq"}', MaxOps=2),
         dict(Mode='"direct"', Wraps=ALL_WRAPS, AVals="{0, 1, 2}", SVals='{"unset", "empty", "p", "pq"}', MaxOps=3),
+        # overlapping SetSource calls (the Blank's mutex makes them atomic): small value universe, every pair overlapped or not
+        dict(Mode='"blank"', Wraps='{"none"}', AVals="{1, 2}", SVals='{"unset"}', MaxOps=3, Overlap="TRUE"),
     ],
     "thorough": [
         dict(Mode='"blank"', Wraps='{"none", "set", "alias"}', AVals="{0, 1}", SVals='{"unset", "p", "empty"}', MaxOps=4),
         dict(Mode='"blank"', Wraps=ALL_WRAPS, AVals="{0, 1, 2}", SVals='{"unset", "empty", "p", "pq"}', MaxOps=3),
         dict(Mode='"direct"', Wraps=ALL_WRAPS, AVals="{0, 1, 2}", SVals='{"unset", "empty", "p", "pq"}', MaxOps=4),
+        dict(Mode='"blank"', Wraps='{"none", "alias"}', AVals="{1, 2}", SVals='{"unset", "p"}', MaxOps=3, Overlap="TRUE"),
     ],
 }
 QUICK_CAP = 25000      # cases executed per configuration in the quick tier (seeded sample beyond it)
@@ -27,7 +30,7 @@ QUICK_CAP = 25000      # cases executed per configuration in the quick tier (see
 
 def write_cfg(path, consts, toggles=(), emit=True):
     lines = ["SPECIFICATION Spec", "CONSTANTS"]
-    for k, v in consts.items():
+    for k, v in dict({"Overlap": "FALSE"}, **consts).items():
         lines.append("  %s = %s" % (k, v))
     for t in ("BUG_NoReverse", "BUG_ReplaceWatcher"):
         lines.append("  %s = %s" % (t, "TRUE" if t in toggles else "FALSE"))
